@@ -5,7 +5,7 @@ import inspect_model, fbcheck
 from ai_edge_quantizer import quantizer
 from ai_edge_quantizer.utils import tfl_interpreter_utils as iu
 seed = int(sys.argv[1]); rec = sys.argv[2]
-m = rand_model(seed, allow_unsupported=False, allow_emb=False)
+m = rand_model(seed, allow_unsupported=False, allow_emb=False, allow_bmm_const=False)
 it = iu.create_tfl_interpreter(m); rr = it.get_signature_runner(); r2 = np.random.default_rng(3)
 d = [{k: r2.normal(size=dd['shape']).astype(np.float32) for k, dd in rr.get_input_details().items()}]
 fo = iu.invoke_interpreter_signature(it, d[0])
